@@ -34,16 +34,17 @@ partial def loop (ck : Checker) (h : IO.FS.Stream) (out : IO.FS.Stream)
   else if line.startsWith "case " then
     let tot ← finishCase st dead tot
     loop ck h out ck.init (String.ofList (line.toList.drop 5)) 0 false { tot with cases := tot.cases + 1 }
-  else if dead then
-    loop ck h out st caseId (lineNo + 1) dead { tot with lines := tot.lines + 1 }
   else
+    -- after the first DIFF of a case the model state is no longer meaningful, but the property monitors keep
+    -- their own books on the implementation's outputs: keep stepping so that they can still turn the
+    -- disagreement into a concrete failing input (further DIFFs of the case are not reported)
     let (op, impl) := splitArrow line
     let r := ck.step st (fields op) impl
     let mut tot := { tot with lines := tot.lines + 1 }
-    let mut dead := false
+    let mut dead := dead
     match r.model with
     | some m =>
-      if m != impl then
+      if m != impl && !dead then
         out.putStrLn s!"DIFF case={caseId} line={lineNo} op={op} model={m} impl={impl}"
         tot := { tot with diffs := tot.diffs + 1 }
         dead := true
@@ -52,7 +53,8 @@ partial def loop (ck : Checker) (h : IO.FS.Stream) (out : IO.FS.Stream)
     | some k => out.putStrLn s!"NOTE case={caseId} line={lineNo} key={k}"
     | none => pure ()
     -- a panic of the real code is a concrete failing input for every property
-    let mon := if impl.startsWith "PANIC" then some ("panic", impl) else r.monitor
+    -- (the property's own monitor may classify it more precisely: its verdict wins)
+    let mon := if impl.startsWith "PANIC" then r.monitor.orElse (fun _ => some ("panic", impl)) else r.monitor
     match mon with
     | some (k, msg) =>
       out.putStrLn s!"MONITOR case={caseId} line={lineNo} key={k} op={op} msg={msg}"
@@ -60,8 +62,7 @@ partial def loop (ck : Checker) (h : IO.FS.Stream) (out : IO.FS.Stream)
     | none => pure ()
     loop ck h out r.state caseId (lineNo + 1) dead tot
 where
-  finishCase (st : ck.σ) (dead : Bool) (tot : Tot) : IO Tot := do
-    if dead then return tot
+  finishCase (st : ck.σ) (_dead : Bool) (tot : Tot) : IO Tot := do
     match ck.finish st with
     | some (k, msg) =>
       out.putStrLn s!"MONITOR case={caseId} line=end key={k} op=- msg={msg}"
